@@ -13,6 +13,11 @@ def cfg_hook(rng, cfg, fam, i):
     # emphasise tiny / huge caches and dedicated-SRAM spilling
     if i % 3 == 0:
         cfg["cache"] = int(rng.choice([2048, 4096, 8192, 16384, 32768, 65536]))
+    if fam == "shared-weights":
+        # shared filters with their own scale tensors matter when the weights are streamed through SRAM buffers
+        cfg["optimise"] = "Performance"
+        cfg["mode"] = None
+        cfg["cache"] = None
     if fam == "buffer-stress" and i % 2:
         # weights streamed through (double) buffers in unequal depth slices need the Performance strategy and room for the buffers
         cfg["optimise"] = "Performance"
@@ -22,7 +27,7 @@ def cfg_hook(rng, cfg, fam, i):
 
 
 FAMILIES = ["buffer-stress", "exact-chain", "stripe-stress", "exact-dag", "alias-stress", "buffer-stress", "exact-chain", "shared-weights", "stripe-resize", "approx-tail",
-            "buffer-stress", "mixed-width", "cpu-mix", "exact-chain-big", "lut-stress", "tiny", "exact-dag", "stripe-resize"]
+            "buffer-stress", "mixed-width", "cpu-mix", "exact-chain-big", "lut-stress", "tiny", "exact-dag", "stripe-resize", "shared-weights"]
 
 
 def gen_cases(tier, seed):
